@@ -237,7 +237,7 @@ fn maybe_format(input: &str) -> Option<(LeftToParse<'_>, MaybeFormat<'_>)> {
 ///
 /// # Grammar
 ///
-/// [`format`]` := '{' [`[`argument`]`] [':' `[`format_spec`]`] '}'`
+/// [`format`]` := '{' [`[`argument`]`] [':' `[`format_spec`]`] [`[`ws`]`] * '}'`
 ///
 /// # Example
 ///
@@ -245,6 +245,7 @@ fn maybe_format(input: &str) -> Option<(LeftToParse<'_>, MaybeFormat<'_>)> {
 /// {par}
 /// {:#?}
 /// {par:-^#.0$?}
+/// {par:? }
 /// ```
 ///
 /// [`format`]: fn@format
@@ -259,6 +260,8 @@ pub(crate) fn format(input: &str) -> Option<(LeftToParse<'_>, Format<'_>)> {
         |i| Some((i, None)),
         map(format_spec, |(i, s)| (i, Some(s))),
     )(input)?;
+
+    let input = ws(input);
 
     let input = char('}')(input)?;
 
@@ -452,7 +455,10 @@ fn type_(input: &str) -> Option<(&str, Type)> {
         &mut map(char('b'), |i| (i, Type::Binary)),
         &mut map(char('e'), |i| (i, Type::LowerExp)),
         &mut map(char('E'), |i| (i, Type::UpperExp)),
-        &mut map(lookahead(char('}')), |i| (i, Type::Display)),
+        &mut map(
+            lookahead(|i| char('}')(ws(i))),
+            |i| (i, Type::Display),
+        ),
     ])(input)
 }
 
@@ -534,6 +540,13 @@ fn integer(input: &str) -> Option<(LeftToParse<'_>, usize)> {
         take_while1(check_char(|c| c.is_ascii_digit())),
         |(i, int)| int.parse().ok().map(|int| (i, int)),
     )(input)
+}
+
+/// Skips a `[ws]*` (any amount of whitespaces) as defined in the [grammar spec][0].
+///
+/// [0]: std::fmt#syntax
+fn ws(input: &str) -> LeftToParse<'_> {
+    take_while0(check_char(|c| c.is_whitespace()))(input).0
 }
 
 /// Parses a `text` as defined in the [grammar spec][0].
